@@ -41,7 +41,7 @@ def kind_of(name):
 
 def check(run):
     prog = Program()
-    prog.load_many([OA] + RATES + [CORE] + REPO)
+    prog.load_many([OA] + RATES + [CORE] + REPO + ['cherab/core/atomic/interface.pyx'])
     for f in [OA] + RATES + [CORE]:
         run.use_file(f)
     # shape normalisation: code hoisted into private helpers (module-level or methods) is read where it is called
